@@ -70,74 +70,8 @@ theorem asm_once {tb : List (Nat × BTR)} {manual : List ManualEdge} {st : AsmSt
     (st.instrIdx.map (·.1)).Nodup ∧
     (∀ a, a ∈ st.instrIdx.map (·.1) ↔ ∃ p ∈ tb, ∃ g ∈ p.2.instrs, g.addr = a) ∧
     (∀ a en ex, (a, (en, ex)) ∈ st.instrIdx →
-      ∃ p ∈ tb, ∃ g ∈ p.2.instrs, g.addr = a ∧ ∃ c0 c1, CfgEdit.insert c0 g.cfg = ⟨c1, .ok (en, ex)⟩) := by
-  obtain ⟨st1, st2, h1, h2, h3⟩ := assembleCore_ok h
-  have l0 : LogOk (allInstrs tb) ({} : AsmState) := ⟨List.Pairwise.nil, fun _ _ _ hm => by cases hm⟩
-  obtain ⟨l1, k1⟩ := resultsLoop_log tb h1 l0 (fun g hg => hg)
-  -- the two edge phases do not touch the log
-  have e2 : st2.instrIdx = st1.instrIdx := by
-    -- `manualLoop` / `succsLoop` keep `instrIdx` whatever the graph is
-    have : ∀ (ms : List ManualEdge) (s s' : AsmState), manualLoop s ms = .ok s' → s'.instrIdx = s.instrIdx := by
-      intro ms
-      induction ms with
-      | nil => intro s s' hh; simp only [manualLoop, Res.ok.injEq] at hh; rw [← hh]
-      | cons m ms ih =>
-        intro s s' hh
-        unfold manualLoop at hh
-        split at hh
-        · split at hh
-          · have := ih _ _ hh; exact this
-          · cases hh
-          · cases hh
-        · cases hh
-    exact this manual st1 st2 h2
-  have e3 : st.instrIdx = st2.instrIdx := by
-    have hsucc : ∀ (ss : List (Nat × Option Expr)) (bx : Nat) (s s' : AsmState),
-        succLoop bx s ss = .ok s' → s'.instrIdx = s.instrIdx := by
-      intro ss bx
-      induction ss with
-      | nil => intro s s' hh; simp only [succLoop, Res.ok.injEq] at hh; rw [← hh]
-      | cons x ss ih =>
-        obtain ⟨sa, sc⟩ := x
-        intro s s' hh
-        unfold succLoop at hh
-        split at hh
-        · split at hh
-          · have := ih _ _ hh; exact this
-          · cases hh
-          · cases hh
-        · cases hh
-    have : ∀ (l : List (Nat × BTR)) (s s' : AsmState), succsLoop s l = .ok s' → s'.instrIdx = s.instrIdx := by
-      intro l
-      induction l with
-      | nil => intro s s' hh; simp only [succsLoop, Res.ok.injEq] at hh; rw [← hh]
-      | cons p rest ih =>
-        obtain ⟨a, r⟩ := p
-        intro s s' hh
-        unfold succsLoop at hh
-        split at hh
-        · split at hh
-          · rename_i s1 hs; rw [ih _ _ hh]; exact hsucc _ _ _ _ hs
-          · cases hh
-          · cases hh
-        · cases hh
-    exact this tb st2 st h3
-  have hmem : ∀ a, (∃ g ∈ allInstrs tb, g.addr = a) ↔ ∃ p ∈ tb, ∃ g ∈ p.2.instrs, g.addr = a := by
-    intro a
-    simp only [allInstrs, List.mem_flatMap]
-    constructor
-    · rintro ⟨g, ⟨p, hp, hg⟩, rfl⟩; exact ⟨p, hp, g, hg, rfl⟩
-    · rintro ⟨p, hp, g, hg, rfl⟩; exact ⟨g, ⟨p, hp, hg⟩, rfl⟩
-  rw [e3, e2]
-  refine ⟨l1.nodup, ?_, ?_⟩
-  · intro a
-    rw [k1 a, hmem a]
-    simp
-  · intro a en ex hm
-    obtain ⟨g, hg, hga, rest⟩ := l1.prov a en ex hm
-    simp only [allInstrs, List.mem_flatMap] at hg
-    obtain ⟨p, hp, hgp⟩ := hg
-    exact ⟨p, hp, g, hgp, hga, rest⟩
+      ∃ p ∈ tb, ∃ g ∈ p.2.instrs, g.addr = a ∧ ∃ c0 c1, CfgEdit.insert c0 g.cfg = ⟨c1, .ok (en, ex)⟩) :=
+  assembleCore_log h
 
 /-- **asm_lang** — the final `merge` does not change what can be executed from the entry: the returned function has
     the language of the assembled graph (before merging) entered at `block_indices[function_address].0`. -/
